@@ -222,7 +222,10 @@ func (mv mapValue) PropertyValue(iv Value) Value {
 	if !ir.IsValid() {
 		return nilValue
 	}
-	er := mr.MapIndex(ir)
+	var er reflect.Value
+	if ir.Type().AssignableTo(mr.Type().Key()) {
+		er = mr.MapIndex(ir)
+	}
 	switch {
 	case er.IsValid():
 		return ValueOf(er.Interface())
